@@ -248,7 +248,7 @@ def run(rep, tier, seed):
     vals = {'int': lambda i: ('i', i + 1), 'str': lambda i: ('s', bytes([97 + i % 26])), 'bool': lambda i: ('b', i % 2 == 0),
             'null': lambda i: ('null',), 'oid': lambda i: ('oid', [1, 3, i + 1]), 'bits': lambda i: ('bits', '10' * (i % 3 + 1)),
             'enum': lambda i: ('i', i)}
-    for width in (9, 10, 11, 12, 23, 101):
+    for width in (9, 10, 11, 12, 23, 101, 255, 256, 257, 258, 259, 300, 1000, 1025):
         for cons in ('seq', 'set'):
             fields = [('r', None, kinds[i % len(kinds)]) for i in range(width)]
             t = (cons, fields)
